@@ -7,9 +7,11 @@ THEOREMS = [
     "C14_abs_exact", "C14_shiftl_exact", "C14_shiftr_exact", "C14_shiftl_panics_iff", "C14_shiftr_panics_iff",
     "C14_cmp_exact", "C14_equal_exact", "C14_sign_exact", "C14_ndigits_spec", "C14_truncate_nonpos",
     "C14_truncate_spec", "C14_truncate_value", "C14_quot_is_cut", "C14_quot_digits", "C14_zstr_roundtrip",
-    "C14_text_roundtrip_refuted", "C14_text_roundtrip_except_known", "C14_text_roundtrip_flagged",
+    "C14_new_decimal_wf", "C14_parse_wf", "C14_add_wf", "C14_sub_wf", "C14_mul_wf", "C14_neg_wf", "C14_abs_wf",
+    "C14_shiftl_wf", "C14_shiftr_wf", "C14_truncate_wf", "C14_text_roundtrip", "C14_text_roundtrip_wf",
     "C14_format_is_literal", "C14_exponent_view_refuted", "C14_exponent_view_except_known", "C14_coex_new_decimal",
-    "C14_mul_coex_refuted", "C14_mul_coex_except_known", "C14_parse_exponent_wraps",
+    "C14_mul_coex_refuted", "C14_mul_coex_except_known", "C14_parse_exponent_exact", "C14_parsed_exponent",
+    "C14_parse_exponent_rejected",
 ]
 
 MIN32, MAX32 = -(1 << 31), (1 << 31) - 1
@@ -113,6 +115,8 @@ def oracle(line, go):
                 return "text denotes %s, parsed %s" % (want, got)
             return None
         n1, e1, z1 = int(t[1]), int(t[2]), int(t[3])
+        if n1 != 0:
+            z1 = 0          # NewDecimal ignores the negative-zero flag on a non-zero coefficient
         if cmd in ("dec_add", "dec_sub"):
             n2, e2 = int(t[4]), int(t[5])
             n, e = add_val(n1, e1, n2, e2, 1 if cmd == "dec_add" else -1)
@@ -170,13 +174,8 @@ def classify_case(line, m, g):
     cmd = t[0]
     try:
         if cmd == "dec_parse":
-            want = ion_parse(bytes.fromhex(t[1][1:]))
-            if want is not None and not (MIN32 <= want[1] <= MAX32) and g.startswith("ok"):
-                return "parse-exponent-wraps"
             return None
         n1, e1, z1 = int(t[1]), int(t[2]), int(t[3])
-        if cmd == "dec_format" and z1 == 1 and n1 != 0:
-            return "negzero-flag-on-nonzero"
         exps = [e1]
         exact = None
         if cmd in ("dec_mul",):
@@ -276,6 +275,7 @@ def gen(ctx):
             decs.append((n, e, 0))
     for e in EXP_GRID + EXP_EDGE:
         decs.append((0, e, 1))                              # negative zero
+    # flag set on a non-zero coefficient: NewDecimal must ignore it
     illformed = [(5, 0, 1), (-5, 0, 1), (5, 3, 1), (12345, -2, 1), (-12345, -7, 1), (1, MIN32, 1)]
     decs += illformed
     for (n, e, z) in decs:
@@ -414,7 +414,7 @@ def run(ctx):
     for tx, ln in back.items():
         t = ln.split(" ")
         got = res.get("dec_parse " + hexs(tx))
-        want = "ok %s %s %s" % (t[1], t[2], t[3])
+        want = "ok %s %s %s" % (t[1], t[2], t[3] if int(t[1]) == 0 else "0")
         n_rt += 1
         if got != want:
             ctx.fail("property", "K14-roundtrip", ln, "String() = %r, ParseDecimal gives %s, expected %s" % (tx, got, want),
@@ -425,7 +425,7 @@ def run(ctx):
 LEVEL = "proof"
 EXPLANATION = ("Theorems over the Gallina model of ion/decimal.go for unbounded coefficients: Add/Sub/Mul/Neg/Abs/ShiftL/ShiftR "
                "are exact in Q (panic iff the scale leaves int32), Cmp/Equal/Sign agree with Qcompare, Truncate is Z.quot by "
-               "10^(digits-precision), ParseDecimal(String(d)) = d field by field for every well-formed d and String(d) is "
+               "10^(digits-precision), ParseDecimal(String(d)) = d field by field for every d NewDecimal can build and String(d) is "
                "always an Ion decimal literal.  The model is tied to the Go methods by running both on the same grid/"
                "boundary/random inputs (K14-*), and the Go answers are judged by an independent Python oracle "
                "(exact integer arithmetic, independent Ion-decimal regular expression).")
